@@ -265,6 +265,7 @@ def run(ctx):
 
     compound_bind.run_phase(ctx, documents_only=True)
     anytype_markers(ctx)
+    inherited_namespaces(ctx)
 
 
 def replay(ctx, doc):
@@ -324,3 +325,48 @@ def anytype_markers(ctx):
                 want = {bool: {"boolean"}, int: numeric - {"decimal", "float", "double"}, float: {"float", "double"}, Decimal: {"decimal"}, XmlDate: {"date"}}[type(val)]
                 if local not in want:
                     ctx.violation(f"xsi:type marker {marker!r} of {val!r} ({type(val).__name__}) does not name a type of its kind", info)
+
+
+def inherited_namespaces(ctx):
+    """A field is written in the namespace of the class that DECLARES it (Meta.namespace of that class), also when a
+    subclass with another namespace is serialised: elements, wrapper elements and attributes alike.  The expectation
+    is read off the classes by walking the MRO, the output with ElementTree."""
+    import dataclasses
+    import xml.etree.ElementTree as ET
+    from dataclasses import dataclass, field
+    from typing import List, Optional
+
+    from ..poly_models import NBase, NLeaf, NMid
+
+    def declared_ns(cls, fname):
+        for k in cls.__mro__:
+            if fname in k.__dict__.get("__annotations__", {}):
+                return k.Meta.namespace
+        raise KeyError(fname)
+
+    xctx = XmlContext()
+    for cls in (NBase, NMid, NLeaf):
+        obj = cls(name="n", tags=["a", "b"], code="c", **({"level": 2} if cls is not NBase else {}), **({"extra": "e", "name2": "o"} if cls is NLeaf else {}))
+        want = [f"{{{declared_ns(cls, 'name')}}}name", f"{{{declared_ns(cls, 'tags')}}}tags"]
+        if cls is not NBase:
+            want.append(f"{{{declared_ns(cls, 'level')}}}level")
+        if cls is NLeaf:
+            want += [f"{{{declared_ns(cls, 'extra')}}}extra", "{urn:own}name2"]
+        for be in ("native", "lxml"):
+            for nm in (None, {None: "urn:base"}, {"b": "urn:leaf", None: "urn:mid"}):
+                ctx.case(("inherited-ns", cls.__name__, be, repr(nm)))
+                try:
+                    text = rb.render(obj, xctx, be, ns_map=dict(nm) if nm else None)
+                    root = ET.fromstring(text)
+                except Exception as ex:  # noqa: BLE001
+                    ctx.violation(f"inherited namespaces: render / re-read failed ({be}): {type(ex).__name__}: {ex}", {"class": cls.__name__})
+                    continue
+                got = [e.tag for e in root]
+                info = {"class": cls.__name__, "backend": be, "ns_map": repr(nm), "text": text}
+                if root.tag != f"{{{cls.Meta.namespace}}}{cls.__name__}" or got != want:
+                    ctx.violation(f"{cls.__name__}: children written as {got} under {root.tag}; the classes that declare the fields prescribe {want}", info)
+                items = [e.tag for e in root.find(f"{{{declared_ns(cls, 'tags')}}}tags") or []]
+                if items and items != [f"{{{declared_ns(cls, 'tags')}}}tag"] * 2:
+                    ctx.violation(f"{cls.__name__}: wrapped items written as {items}", info)
+                if root.get("{urn:base}code") != "c":
+                    ctx.violation(f"{cls.__name__}: attribute code not written in its declared namespace: {root.attrib}", info)
